@@ -432,7 +432,7 @@ def _unpatch_adjuster(saved):
     upload.ChunksizeAdjuster, copies.ChunksizeAdjuster = saved
 
 
-def run_scenario(sc, schedule=None, keep_trace=False):
+def run_scenario(sc, schedule=None, keep_trace=False, observe=False):
     tmpdir = tempfile.mkdtemp(prefix='s3v-ex-')
     sch = Scheduler(seed=sc['sched_seed'], mode=sc['mode'], schedule=schedule, max_steps=60000)
     sch.keep_trace = keep_trace
@@ -445,7 +445,16 @@ def run_scenario(sc, schedule=None, keep_trace=False):
     saved = _patch_adjuster()
     try:
         with Installed(sch) as sh:
-            _run_inner(sc, sch, sh, env, run)
+            run.observer = None
+            if observe:
+                import observe as observe_mod
+                run.observer = observe_mod.Observer(env, sh)
+                run.observer.install()
+            try:
+                _run_inner(sc, sch, sh, env, run)
+            finally:
+                if run.observer is not None:
+                    run.observer.uninstall()
     finally:
         _unpatch_adjuster(saved)
         run.leftover = sorted(os.listdir(tmpdir))
@@ -460,7 +469,64 @@ def run_scenario(sc, schedule=None, keep_trace=False):
     return run
 
 
+def _track_occupancy(sh, run):
+    """Exact occupancy per stage semaphore: a task counts from the moment BoundedExecutor.submit
+    returned (permit taken, task queued) until its future is about to complete (before the permit is
+    given back), so the measured number never exceeds the true one."""
+    import s3transfer.futures as fm
+    occ = {}
+    high = {}
+    orig = fm.BoundedExecutor.submit
+
+    def submit(self, task, tag=None, block=True):
+        fut = orig(self, task, tag=tag, block=block)
+        key = (id(self), getattr(tag, 'name', None))
+        if not getattr(task, '_s3v_finished', False):
+            task._s3v_sem = key
+            occ[key] = occ.get(key, 0) + 1
+            high[key] = max(high.get(key, 0), occ[key])
+        return fut
+
+    def on_exec(name, kind, fn):
+        if kind == 'finish':
+            fn._s3v_finished = True
+            key = getattr(fn, '_s3v_sem', None)
+            if key is not None:
+                occ[key] -= 1
+                fn._s3v_sem = None
+    fm.BoundedExecutor.submit = submit
+    sh.exec_observers.append(on_exec)
+    run.occupancy_high = high
+
+    def undo():
+        fm.BoundedExecutor.submit = orig
+    return undo
+
+
 def _run_inner(sc, sch, sh, env, run):
+    from s3transfer.manager import TransferConfig, TransferManager
+    cfg = sc['cfg']
+    undo_occ = _track_occupancy(sh, run)
+    try:
+        _run_inner2(sc, sch, sh, env, run)
+    finally:
+        undo_occ()
+        try:
+            tm = run.tm
+            names = {id(tm._request_executor): 'request', id(tm._submission_executor): 'submission', id(tm._io_executor): 'io'}
+            caps = {('request', None): cfg['max_request_queue_size'], ('submission', None): cfg['max_submission_queue_size'],
+                    ('io', None): cfg['max_io_queue_size'],
+                    ('request', 'in_memory_upload'): cfg['max_in_memory_upload_chunks'],
+                    ('request', 'in_memory_download'): cfg['max_in_memory_download_chunks']}
+            run.occupancy = {}
+            for (eid, tag), h in run.occupancy_high.items():
+                k = (names.get(eid, '?'), tag)
+                run.occupancy[k] = (h, caps.get(k))
+        except Exception:   # noqa
+            run.occupancy = {}
+
+
+def _run_inner2(sc, sch, sh, env, run):
     from s3transfer.manager import TransferConfig, TransferManager
     cfg = sc['cfg']
     req_faults = [dict(f) for f in sc['faults'] if f['site'] == 'req']
@@ -469,6 +535,14 @@ def _run_inner(sc, sch, sh, env, run):
     fake = FakeS3(fault_plan=FaultPlan(req_faults), hook=lambda what, info: sch.point((what, info)))
     fake.clock = sch.tick
     run.fake = fake
+    if getattr(run, 'observer', None) is not None:
+        import re as _re
+
+        def on_event(e):
+            m = _re.search(r'(\d+)$', e['args'].get('Key', '') or '')
+            ti = int(m.group(1)) if m else None
+            run.observer.request_event(e['op'], e['phase'], e['outcome'] == 'ok', ti, e['t'])
+        fake.on_event = on_event
     body_faults = [f for f in sc['faults'] if f['site'] == 'body']
     get_counter = {'n': 0}
 
